@@ -27,6 +27,7 @@ FRAGMENTS = [
     ("Factory", "gen_factory"),
     ("ImpTables", "gen_impedance"),
     ("H5Appends", "gen_h5"),
+    ("PSLoops", "gen_psloops"),
 ]
 
 
